@@ -1,10 +1,10 @@
 #!/bin/bash
-# usage: tools/collect_seed.sh <wt-suffix e.g. C04c> <seeded-id e.g. C04-c> <props...>
+# usage: tools/collect_seed.sh <worktree> <seeded-id e.g. C04-f> <props...>
+# copy a sub-agent's deliverables to seeded/<id>/, run the named quick checks against the change (applied to /repo
+# and undone), print one line per check.  The worktree is left in place (remove it once verified).
 set -u
 cd /verif
-wt=/tmp/wt-$1; id=$2; shift 2
-mkdir -p seeded/$id && cp $wt/SEEDED/* seeded/$id/ 2>/dev/null
-cp $wt/tests/*demo* seeded/$id/ 2>/dev/null
-echo "files in patch: $(grep -c '^diff --git' seeded/$id/patch.diff)"
-tools/try_mutant.sh seeded/$id/patch.diff quick "$@" 2>&1 | tail -$# | cut -c1-330
-git -C /repo worktree remove --force $wt
+wt=$1; id=$2; shift 2
+mkdir -p seeded/$id && cp $wt/deliver/* seeded/$id/ 2>/dev/null
+echo "== $id: files in patch: $(grep -c '^diff --git' seeded/$id/patch.diff)"
+tools/try_mutant.sh seeded/$id/patch.diff quick "$@" 2>&1 | tail -$# | cut -c1-400
